@@ -4,8 +4,8 @@ Stores a confirmed seeded change under /verif/seeded/<ID>/ (patch.diff, the demo
 import json, os, shutil, sys, glob
 sid, caught, vlog = sys.argv[1], sys.argv[2], sys.argv[3]
 note = sys.argv[4] if len(sys.argv) > 4 else ""
-src = "/tmp/mut/%s.out" % sid
-dst = "/verif/seeded/%s" % sid
+src = os.environ.get("MUTSRC") or "/tmp/mut/%s.out" % sid
+dst = "/verif/seeded/%s" % (os.environ.get("SEEDNAME") or sid)
 os.makedirs(dst, exist_ok=True)
 shutil.copy(src + "/patch.diff", dst + "/patch.diff")
 for f in glob.glob(src + "/demo*"):
@@ -14,12 +14,12 @@ meta = json.load(open(src + "/meta.json"))
 ver = [l.rstrip() for l in open(vlog) if l.startswith(("files:", "BUILD", "VET", "DEMO", "existing tests", "--- FAIL", "    --- FAIL", "FAIL"))]
 out = {
     "property": meta.get("property", sid),
-    "breaks": meta.get("summary"),
-    "needs_in_order_to_manifest": meta.get("what_it_needs_to_manifest"),
+    "breaks": meta.get("summary") or meta.get("breaks"),
+    "needs_in_order_to_manifest": meta.get("what_it_needs_to_manifest") or meta.get("needs_in_order_to_manifest"),
     "files_changed": meta.get("files_changed"),
     "demonstration": meta.get("demo"),
     "author": "independent sub-agent given only the property text and a scratch worktree of /repo (nothing from /verif)",
-    "existing_tests_run_by_author": meta.get("existing_tests_run"),
+    "existing_tests_run_by_author": meta.get("existing_tests_run") or meta.get("existing_tests_run_by_author"),
     "confirmed_by_me": {
         "how": "seedverify.sh: fresh scratch worktree of /repo HEAD, patch applied, go build + go vet, existing tests of the touched packages and ./tm/tmengine/..., demonstration run with the change (must fail) and with the change reverted (must pass); worktree removed afterwards",
         "log": ver,
